@@ -3,7 +3,7 @@ import re
 
 import sympy as sp
 
-from ..model import walk, strip, is_call, call_obj, call_args, render, short, always_exits, AnalysisBroken
+from ..model import flat_stmts, walk, strip, is_call, call_obj, call_args, render, short, always_exits, AnalysisBroken
 from .. import sym as S
 from .c10 import product_fns
 
@@ -62,6 +62,8 @@ def run(rep, prog, tier):
         c = node_field_call(n)
         if c and c[1] == "pos_" and c[2] == "translate":
             b = fi.enclosing(n, ("CompoundStmt",))
+            while b is not None and b.get("inlined_lambda"):
+                b = fi.enclosing(b, ("CompoundStmt",))
             if b is not None and all(b is not x for x in blocks):
                 blocks.append(b)
     if not blocks:
@@ -84,7 +86,7 @@ def analyse_block(rep, prog, fn, fi, blk, cm, dm):
     resets = {}       # field -> [(path, old, new)]
     masses = {}
     try:
-        for s in blk.get("c", []):
+        for s in flat_stmts(blk):
             e = strip(s)
             c = node_field_call(e) if e.get("k") == "CXXMemberCallExpr" else None
             if c:
